@@ -212,7 +212,10 @@ impl CsdV2 {
 
     /// Returns the card capacity in 512-byte blocks
     pub fn card_capacity_blocks(&self) -> u32 {
-        (self.device_size() + 1) * 1024
+        // C_SIZE has 22 bits, so the all-ones value gives 2^32 blocks, one
+        // more than fits: saturate instead of overflowing.
+        let blocks = (u64::from(self.device_size()) + 1) * 1024;
+        u32::try_from(blocks).unwrap_or(u32::MAX)
     }
 }
 
